@@ -193,7 +193,8 @@ func runC11(rep Rep, c C11Case) {
 	s.C.UpdateSet(NS, s.Name, func(x *asv1.StatefulSet) { helper.SetPausedReconcile(x, false) })
 	s.logf("user: pause lowered")
 	// the un-pause reaches the controller as a set update event: it must wake the set up
-	{
+	// (unless an injected not-found interference removed the set itself earlier in the history)
+	if s.Set() != nil {
 		q := s.C.Ctrl().VerifQueue()
 		for q.Len() > 0 {
 			k, _ := q.Get()
